@@ -27,7 +27,7 @@ from exprgrammar import TranslateError  # noqa: E402
 KINDS = ["EF", "EG", "AF", "AG", "LEADS_TO", "A_UNTIL", "A_WEAK_UNTIL", "PO_CONTROL", "EF_CONTROL", "CONTROL", "CONTROL_TOPT",
          "CONTROL_TOPT_DEF1", "CONTROL_TOPT_DEF2", "SUP_VAR", "INF_VAR", "BOUNDS_VAR"]
 NONTERMINALS = ["SubProperty", "AssignablePropperty", "Property", "PropertyExpr", "SupPrefix", "InfPrefix", "BoundsPrefix", "BracketExprList",
-                "ExpressionList", "NonEmptyExpressionList", "BoolOrKWAnd", "SMCBounds", "BoundType", "PathType"]
+                "ExpressionList", "NonEmptyExpressionList", "BoolOrKWAnd", "SMCBounds", "BoundType", "PathType", "CmpGLE"]
 # the statistical forms print conditionally (optional run count, `<>` / `[]` / `U`, the bound type): their cases and print_bound_type are
 # matched as whole skeletons (white space removed); Model/QuerySmc.lean is the hand-written reading of exactly these texts
 SMC_SKELETONS = {
@@ -37,6 +37,15 @@ SMC_SKELETONS = {
                      'else{get(3).print(os<<"](",old)<<"U";get(4).print(os,old)<<")";}break;',
     "PROBA_EXP": 'os<<"E[";print_bound_type(os,get(1));get(2).print(os,old);if(get(0).get_value()>=0)get(0).print(os<<";",old);'
                  'os<<"]("<<(get(3).get_value()?"max:":"min:");get(4).print(os,old)<<")";break;',
+    "PROBA_MIN_BOX": 'flag=true;[[fallthrough]];',
+    "PROBA_MIN_DIAMOND": 'os<<"Pr[";print_bound_type(os,get(1));get(2).print(os,old);if(get(0).get_value()>=0)get(0).print(os<<";",old);'
+                         'os<<(flag?"]([]":"](<>");get(3).print(os,old)<<")>="<<get(4).get_double_value();break;',
+    "PROBA_CMP": 'os<<"Pr[";print_bound_type(os,get(0));get(1).print(os,old)<<"](";os<<(get(2).get_value()==kind_t::BOX?"[]":"<>");'
+                 'get(3).print(os,old)<<")>=";os<<"Pr[";print_bound_type(os,get(4));get(5).print(os,old)<<"](";'
+                 'os<<(get(6).get_value()==kind_t::BOX?"[]":"<>");get(7).print(os,old)<<")";break;',
+    "SIMULATEREACH": 'os<<"simulate[";print_bound_type(os,get(1));get(2).print(os,old)<<";";get(0).print(os,old)<<"]{";nb=get_size()-5;'
+                     'if(nb>0){get(3).print(os,old);for(inti=1;i<nb;++i)get(3+i).print(os<<",",old);}os<<"}:";'
+                     'get(4+nb).print(os,old)<<":";get(3+nb).print(os,old);break;',
     "SIMULATE": 'os<<"simulate[";print_bound_type(os,get(1));get(2).print(os,old)<<";";get(0).print(os,old)<<"]{";nb=get_size()-3;'
                 'if(nb>0){get(3).print(os,old);for(inti=1;i<nb;++i)get(3+i).print(os<<",",old);}os<<"}";break;',
 }
@@ -44,7 +53,8 @@ BOUND_TYPE_SKELETON = ('if(e.get_kind()==CONSTANT){assert(e.get_type().is(Consta
                        'else{e.print(os,false);}os<<"<=";returnos;')
 # the literals of those texts, by the name the Lean printer uses for them
 SMC_LITERALS = {"pr": "Pr[", "runs": "; ", "box": "]([] ", "diamond": "](<> ", "untilOpen": "](", "until": " U ", "close": ")", "ex": "E[",
-                "exOpen": "] (", "colon": ":", "sim": "simulate[", "simOpen": "] {", "comma": ", ", "simClose": "}", "steps": "#", "leq": "<="}
+                "exOpen": "] (", "colon": ":", "sim": "simulate[", "simOpen": "] {", "comma": ", ", "simClose": "}", "steps": "#", "leq": "<=",
+                "cmpOpen": "] (", "cmpBox": "[] ", "cmpDiamond": "<> ", "geq": ") >= ", "reachOpen": "} : ", "reachSep": " : "}
 LIST_SKELETON = "if(get_size()>0){get(0).print(os,old);for(uint32_ti=1;i<get_size();i++)get(i).print(os<<\",\",old);}break;"
 
 
